@@ -11,6 +11,7 @@ RULE = ("nn-op catalogue (activations, softmax family, losses x reductions, line
         "max-pool padding, |x|<=800 for the exp-based ops), contiguous and non-contiguous operand storage, batch-norm eval forward after a train/eval/train history with momentum=None + empty-output geometries that must raise; oracle = naive loop reference (harness/ref/nnref.py) under the verdict "
         "table, stride-bounds sanitizer on every as_strided view; distinct key = (op, form, argclass, dtype, value class, verdict); "
         "non-trivial = output has >1 element or rejection side")
+RULE += (' Added after the seeded rounds: the same configuration called first in the other dtype; batch-norm histories with numeric momentum (0.0, 0.5) and eps 1e-3; condition-aware float32 bound for batch norm.')
 ASSUMPTIONS = ["reference models written from the PyTorch documentation (cross-correlation, floor output size, -inf max-pool padding, zero avg-pool "
                "padding counted, channel-major unfold rows, row-major blocks, biased batch variance)",
                "forward-error bound K*eps(dtype)*max(|ref|, ref(|operands|), max|operand|), K = 32+4*log2(n) (256 for batch norm)",
